@@ -374,6 +374,11 @@ func c12(c *Ctx) {
 		c.Missing("R4", "aggregate.Builder")
 	}
 
+	c.Rule("R8", "E3 ordering + E1 (shared with C02.R6)", "pipeline.produce calls every instrument's compute function and delivers its output: no early exit from the loop over the instruments and no discarding of the output once a delta aggregation has emptied its state — the total of the reported points stays the total of the measurements", 4)
+	rulePipelineProduce(c, mx, "R8")
+	c.Rule("R9", "E1 atomic section (shared with C02.R2)", "every delta collect method empties its map of attribute sets inside the collecting critical section: the limiter counts the sets of the current cycle only, so the first L-1 sets of a cycle keep their identity", 4)
+	ruleDeltaAtomic(c, ax, "R9")
+
 	c.Rule("R5", "E3 dominance", "drop aggregation and de-duplication: a nil measure is never appended or registered; a measure whose aggregator id was already seen is not appended twice", 4)
 	ruleInserterDedup(c, mx, "R5")
 	if fn := c.Fn(mx, "R5", "(*inserter).cachedAggregator"); fn != nil {
